@@ -58,15 +58,16 @@ SPECS = {
         "quick": ["c26_hamming", "c26_probes_h0_p3", "c26_probes_h1_p4", "c26_probes_h2_p0", "c26_probes_h2_p8",
                   "c26_probes_h3_p8", "c26_probes_h4_p16", "c26_probes_h62_p3", "c26_probes_h64_p3",
                   "c26_float_mismatch", "c26_int8_dist3", "c26_int8_euclid1", "c26_float_manhattan1", "c26_float_euclid1",
-                  "c26_time_arith", "c26_time_cmp", "c26_within_last", "c26_intervals", "c26_decay_linear"],
+                  "c26_time_arith", "c26_time_cmp", "c26_within_last", "c26_intervals", "c26_decay_linear", "c26_quant_sym1"],
         "thorough": ["c26_float_manhattan2"],
         "functions": ["inputlayer::vector_ops::hamming_distance", "lsh_probes", "euclidean_distance_squared",
                       "manhattan_distance", "dot_product", "manhattan_distance_int8", "dot_product_int8",
                       "euclidean_distance_int8", "inputlayer::temporal_ops::time_diff", "time_add", "time_sub",
                       "interval_duration", "time_before", "time_after", "time_between", "point_in_interval",
-                      "within_last", "intervals_overlap", "interval_contains", "time_decay_linear"],
+                      "within_last", "intervals_overlap", "interval_contains", "time_decay_linear", "inputlayer::vector_ops::quantize_vector_symmetric"],
         "bounds": {
             "*": "see harness",
+            "c26_quant_sym1": "quantize_vector_symmetric on a 1-component vector, every finite f32: non-zero -> +/-127, zero -> 0",
             "c26_time_arith": "every pair of i64 (result = exact i128 result clamped to i64)",
             "c26_time_cmp": "every triple of i64",
             "c26_within_last": "every triple of i64 (timestamp, now, window)",
@@ -90,8 +91,8 @@ SPECS = {
         },
         "assumptions": ["CBMC's IEEE-754 float model", "finite inputs for the float kernels (NaN/inf are outside)"],
         "outside": ["cosine distances (sqrt and division)", "symmetry of the squared euclidean / dot product on floats "
-                    "(multiplier equivalence: CBMC does not finish)", "dimensions above 3", "quantize/dequantize (float "
-                    "division and rounding: CBMC does not finish within 900 s)",
+                    "(multiplier equivalence: CBMC does not finish)", "dimensions above 3", "quantize/dequantize beyond the 1-component symmetric kernel (float "
+                    "division and rounding on 2+ components: CBMC does not finish within 900 s)",
                     "LSH bucket determinism under hyperplane-cache clear/resize/eviction and concurrent use (global "
                     "RwLock<HashMap> + threads: not encodable)", "time_decay (powf) and time_now (clock)",
                     "monotonicity of time_decay_linear in the age (two float divisions compared)"],
